@@ -1247,8 +1247,22 @@ def r9_registered_routes_survive_the_builders(ctx):
         n += 1
         p = access_path(f, {"k": "move", "pl": {"l": 0, "p": []}}, VALUE_PRESERVING)
         if re.match(r"^api_description::ApiDescription<", t0):
-            ok = p.kind() == "param" and p.root_local() == 1 and not p.path
-            ctx.check(R, "builder-returns-its-receiver:%s" % k.rsplit("::", 1)[-1], ok, "%s returns %r (must be `self`, with only fields assigned)" % (k.rsplit("::", 1)[-1], p), f)
+            # the returned value, followed back through whole-value moves (assignments to single fields on the way do not replace the
+            # value: `let mut this = self; this.tag_config = cfg; this`)
+            l, hops = 0, 0
+            while hops < 8 and not (1 <= l <= f.argc):
+                whole = [(kind, node) for dbb, kind, node in f.defs().get(l, []) if dbb in f.reachable(0) and not f.blocks[dbb]["cleanup"]
+                         and not (kind == "assign" and node["pl"]["p"])]
+                if len(whole) != 1 or whole[0][0] != "assign" or whole[0][1]["rv"]["rv"] != "use" or whole[0][1]["rv"]["op"].get("k") not in ("move", "copy") \
+                        or whole[0][1]["rv"]["op"]["pl"]["p"]:
+                    break
+                l = whole[0][1]["rv"]["op"]["pl"]["l"]
+                hops += 1
+            router_kept = not any(kind == "assign" and node["pl"]["p"] and isinstance(node["pl"]["p"][0], dict) and node["pl"]["p"][0].get("n") == "router"
+                                  for ds_ in f.defs().values() for dbb, kind, node in ds_ if dbb in f.reachable(0))
+            ok = l == 1 and router_kept
+            ctx.check(R, "builder-returns-its-receiver:%s" % k.rsplit("::", 1)[-1], ok, "%s returns %s (must be `self`, with only fields other than `router` assigned)" % (
+                k.rsplit("::", 1)[-1], "its receiver" if l == 1 else "a value that is not its receiver (%r)" % p), f)
         elif re.match(r"^router::HttpRouter<", t0):
             ok = p.kind() == "param" and p.root_local() == 1 and p.path == ["router"]
             ctx.check(R, "hands-over-its-own-router:%s" % k.rsplit("::", 1)[-1], ok, "%s returns %r (must be self.router)" % (k.rsplit("::", 1)[-1], p), f)
@@ -1572,3 +1586,13 @@ SELFTEST = [
      "why": "behaviour-preserving: the literal arm reports its own miss with `?` (same 404) instead of leaving it to the ok_or_else behind the match"},
 ]
 LEVEL_TEXT += " Also (R8 = C02.R2): each trie node has one kind of outgoing edge, which the walk's per-kind arms rely on."
+
+
+SELFTEST += [
+    {"name": "tag_config-through-a-binding", "kind": "benign", "why": "behaviour-preserving: the builder rebinds self before assigning the field",
+     "edits": [("dropshot/src/api_description.rs", "    pub fn tag_config(mut self, tag_config: TagConfig) -> Self {\n        self.tag_config = tag_config;\n        self\n    }",
+                "    pub fn tag_config(self, tag_config: TagConfig) -> Self {\n        let mut this = self;\n        this.tag_config = tag_config;\n        this\n    }")]},
+    {"name": "tag_config-starts-over", "kind": "mutant", "expect": ["C01.R9"], "why": "the builder returns a fresh description: endpoints registered before the call are gone",
+     "edits": [("dropshot/src/api_description.rs", "    pub fn tag_config(mut self, tag_config: TagConfig) -> Self {\n        self.tag_config = tag_config;\n        self\n    }",
+                "    pub fn tag_config(self, tag_config: TagConfig) -> Self {\n        ApiDescription { router: HttpRouter::new(), tag_config }\n    }")]},
+]
